@@ -90,7 +90,7 @@ def _grad_of_sum(total, deps, src, unconnected):
     dt = getattr(src, "_dtype", float64)
     if a.dtype != object:
         raise OutOfEncoding(
-            "gradient with respect to a concrete (non-symbolic) source; symbolise the variable first"
+            "gradient with respect to a concrete (non-symbolic) source %r = %r; symbolise the variable first" % (getattr(src, "name", None), a.reshape(-1)[:3].tolist())
         )
     out = np.empty(a.shape, dtype=object)
     connected = False
